@@ -318,6 +318,120 @@ theorem moved_from_inert (clk : Clock) (ops : List Op) : calls movedFrom clk ops
 theorem unfixed_with_completion_reenables (c c' : Nat) (d : Data) :
     (stepUnfixedWithCompletion (new false c d) c').completion = some c' := rfl
 
+/-! ### Completion adapters and clock holders -/
+
+theorem compCode_roundtrip (n : Nat) (a : Adapter) : compId (compCode n a) = n ∧ compAdapter (compCode n a) = a := by
+  cases a <;> simp [compId, compCode, compAdapter, Adapter.code, Adapter.ofCode] <;> omega
+
+/-- one `Completion::complete` call reaches the recorder at most once, and exactly once unless the completion
+    is `Empty` -/
+theorem deliver_length (c : Call) :
+    (deliver c).length = if compAdapter c.by_ = .empty then 0 else 1 := by
+  unfold deliver
+  cases compAdapter c.by_ <;> simp
+
+/-- **adapters_transparent** (G15). `&C`, `from_fn`, `dyn ErasedCompletion`, `dyn ErasedCompletion + Send + Sync`
+    (and no adapter at all) hand the recorder the very span the guard completed with: module, name, props,
+    extent. -/
+theorem adapters_transparent (n : Nat) (a : Adapter) (h : a ≠ .empty ∧ a ≠ .fromEmitter) (c : Call)
+    (hc : c.by_ = compCode n a) : deliver c = [.span n { c with by_ := n }] := by
+  have := compCode_roundtrip n a
+  unfold deliver
+  rw [hc, this.1, this.2]
+  cases a <;> simp_all
+
+/-- `from_emitter`: the recorder (an emitter) receives the span as an event — same module, the span's own extent
+    (no clock is consulted), `evt_kind` and `span_name` in front of the span's props, and nothing ambient. -/
+theorem from_emitter_delivers_span_event (n : Nat) (c : Call) (hc : c.by_ = compCode n .fromEmitter) :
+    deliver c = [.event n ⟨c.mdl, "{span_name} completed", rangeExt c.extent,
+      [("evt_kind", "span"), ("span_name", c.name)] ++ c.props⟩] := by
+  have := compCode_roundtrip n .fromEmitter
+  unfold deliver
+  rw [hc, this.1, this.2]
+  simp [spanEvent]
+
+/-- **completion_adapters_at_most_once** (G15). Whatever the operation list, the clock and the adapters the
+    completions sit behind: the recorders receive at most one delivery in total. -/
+theorem completion_adapters_at_most_once (g : Guard) (clk : Clock) (ops : List Op) :
+    ((calls g clk ops).flatMap deliver).length ≤ 1 := by
+  have h := at_most_once g clk ops
+  match hc : calls g clk ops, h with
+  | [], _ => simp
+  | [c], _ => simp [deliver_length]; split <;> omega
+
+/-- **completion_adapters_exactly_once** (G15). An enabled guard that was started and reaches a terminal delivers
+    exactly once through every adapter — recorder and adapter being those of the completion in force at the
+    terminal (the last `with_completion`, or the one given to `complete_with`) — and not at all through `Empty`. -/
+theorem completion_adapters_exactly_once (c : Nat) (d : Data) (clk : Clock) (bs : List Op) (t : Op) (after : List Op)
+    (hb : ∀ o ∈ bs, isBuilder o = true) (hs : Op.start ∈ bs) (ht : isTerminal t = true) :
+    ((calls (new true c d) clk (bs ++ t :: after)).flatMap deliver).length =
+      if compAdapter (terminalWho (applyCompletion c bs) t) = .empty then 0 else 1 := by
+  obtain ⟨r, clk', _, h⟩ := enabled_started_exactly_once c d clk bs t after hb hs ht
+  rw [h]
+  simp [deliver_length]
+
+/-- **clock_holders_transparent** (G17). Every holder but `Option::None` leaves the clock script, hence every
+    call, extent and returned value of every theorem above, as it is. -/
+theorem clock_holders_transparent (h : ClockHolder) (hne : h ≠ .none_) (clk : Clock) : h.script clk = clk := by
+  cases h <;> simp_all [ClockHolder.script]
+
+theorem step_nil_clock (g : Guard) (op : Op) :
+    (step g [] op).clock = [] ∧ ∀ c ∈ (step g [] op).calls, c.extent = none := by
+  have hcc : ∀ (g : Guard) (who : Nat → Nat), (completeCore g [] who).2.2.2 = [] ∧
+      ∀ c ∈ (completeCore g [] who).2.2.1, c.extent = none := by
+    intro g who
+    unfold completeCore
+    split <;> simp [now, timerExtent]
+  have hd : ∀ g : Guard, (dropCalls g []).2 = [] ∧ ∀ c ∈ (dropCalls g []).1, c.extent = none := by
+    intro g; exact hcc g id
+  cases op with
+  | start => simp only [step]; split <;> simp [now]
+  | withMdl m => simp [step]
+  | withName n => simp [step]
+  | withProps ps => simp [step, dropCalls_movedFrom]
+  | mapProps e => simp [step, dropCalls_movedFrom]
+  | withCompletion c => simp [step, dropCalls_movedFrom]
+  | complete =>
+    have h1 := hcc g id
+    simp only [step]
+    have h2 := hd (completeCore g [] id).2.1
+    rw [h1.1] at *
+    refine ⟨h2.1, ?_⟩
+    intro c hc
+    rcases List.mem_append.1 hc with h | h
+    · exact h1.2 c h
+    · exact h2.2 c h
+  | completeWith c' =>
+    have h1 := hcc g (fun _ => c')
+    simp only [step]
+    have h2 := hd (completeCore g [] (fun _ => c')).2.1
+    rw [h1.1] at *
+    refine ⟨h2.1, ?_⟩
+    intro c hc
+    rcases List.mem_append.1 hc with h | h
+    · exact h1.2 c h
+    · exact h2.2 c h
+  | drop =>
+    have h1 := hcc g id
+    simp only [step]
+    exact h1
+
+/-- `Option::None` as the clock: nothing is ever read, so no completed span has an extent. -/
+theorem clock_none_no_extent (g : Guard) (clk : Clock) (ops : List Op) :
+    ∀ c ∈ calls g (ClockHolder.none_.script clk) ops, c.extent = none := by
+  simp only [ClockHolder.script]
+  induction ops generalizing g with
+  | nil => simp [calls, run]
+  | cons op rest ih =>
+    intro c hc
+    unfold calls at hc ih
+    simp only [run] at hc
+    obtain ⟨h1, h2⟩ := step_nil_clock g op
+    rw [h1] at hc
+    rcases List.mem_append.1 hc with h | h
+    · exact h2 c h
+    · exact ih _ c h
+
 /-! ### The default completion -/
 
 def lookupFirst (k : Str) : Props → Option Str
